@@ -1,14 +1,16 @@
-use std::{thread, io::stdin, sync::mpsc::{self, Receiver}};
+use std::{thread, io::stdin, sync::mpsc::{self, Receiver}, cell::RefCell, collections::VecDeque};
 
 use crate::cmove::Move;
 
 pub struct IoWrapper {
-    receiver: Receiver<String>
+    receiver: Receiver<String>,
+    //Lines taken off the channel during a search that the command loop still has to see
+    deferred: RefCell<VecDeque<String>>
 }
 
 impl IoWrapper {
     pub fn init() -> Self {
-        Self { receiver: init_input_thread( )}
+        Self { receiver: init_input_thread( ), deferred: RefCell::new(VecDeque::new()) }
     }
 
     /// A wrapper without a reader thread: the verification driver owns stdin itself.
@@ -16,7 +18,7 @@ impl IoWrapper {
     pub fn verif_detached() -> Self {
         let (tx, rx) = mpsc::channel::<String>();
         std::mem::forget(tx);
-        Self { receiver: rx }
+        Self { receiver: rx, deferred: RefCell::new(VecDeque::new()) }
     }
 
     pub fn try_read_line(&self) -> Option<String> {
@@ -26,7 +28,14 @@ impl IoWrapper {
         }
     }
 
+    pub fn defer_line(&self, line: String) {
+        self.deferred.borrow_mut().push_back(line)
+    }
+
     pub fn read_line(&self) -> String {
+        if let Some(line) = self.deferred.borrow_mut().pop_front() {
+            return line;
+        }
         match self.receiver.recv() {
             Ok(line) => line.trim().to_string(),
             Err(_) => unreachable!(),
